@@ -115,7 +115,9 @@ func (d *DynamicNeighbor) validate(b *BgpConfigSet) error {
 }
 
 func (g *Global) IsConfederationMember(peerAS uint32) bool {
-	return slices.Contains(g.Confederation.Config.MemberAsList, peerAS)
+	// a member-as-list that is configured while the confederation is
+	// disabled must not change how a source is classified
+	return g.Confederation.Config.Enabled && slices.Contains(g.Confederation.Config.MemberAsList, peerAS)
 }
 
 func (g *Global) IsConfederation(peerAS uint32) bool {
